@@ -105,8 +105,13 @@ package wamp
 //@   pure
 //@   ensures [chan] result == method(recv, "Send")
 
+//@ iface (Peer) Recv
+//@   pure
+//@   ensures [chan] result == method(recv, "Recv")
+
 //@ iface (Message) MessageType
 //@   pure
+//@   dispatch
 
 //@ func (s *Session) HasFeature
 //@   requires s != nil
@@ -148,3 +153,34 @@ package wamp
 //@   ensures [uri]    is(v, URI) ==> result1 && result0 == v.(URI)
 //@   ensures [other]  !is(v, string) && !is(v, URI) && !is(v, []byte) ==> !result1
 //@   ensures [fail-empty] !result1 ==> result0 == ""
+
+//@ func (s *Session) Goodbye
+//@   requires s != nil
+//@   pure
+
+//@ func (s *Session) RecvDone
+//@   requires s != nil
+//@   modifies s.done, ghost closed
+
+//@ func RecvTimeout
+//@   requires !isnil(p)
+//@   recvsite Message : [peers-deliver-well-formed-messages] assume !isnil(m) && (is(m, *Hello) ==> m.(*Hello) != nil) && (is(m, *Authenticate) ==> m.(*Authenticate) != nil)
+//@   ensures [message-or-error] isnil(result1) ==> !isnil(result0) && (is(result0, *Hello) ==> result0.(*Hello) != nil) && (is(result0, *Authenticate) ==> result0.(*Authenticate) != nil)
+
+// NormalizeDict goes through reflect; the only fact used is that a value of a
+// map kind (wamp.Dict here) always yields a non-nil Dict.
+//@ func NormalizeDict
+//@   trusted
+//@   modifies nothing
+//@   ensures [map-kind-gives-dict] is(v, Dict) ==> result != nil && fresh(result)
+
+//@ func (s *Session) setRoles
+//@   requires s != nil
+//@   modifies s.roles, fresh map[string]map[string]struct{}, fresh map[string]struct{}
+
+//@ func NewSession
+//@   modifies nothing
+//@   ensures result != nil && fresh(result) && result.ID == id && result.Peer == peer && result.Details == details
+
+// The realm named in a HELLO is never rewritten after the message is built.
+//@ immutable Hello Realm
